@@ -218,6 +218,7 @@ def gen_cases(tier, g: G.G, exe=None, ext='-'):
         cases += list(G.stream_casts(g, u2))
         cases += list(G.stream_userfuncs(g, u2))
         nrand, nmal = 40000, 10000
+    cases += list(G.stream_named_tuples(g))        # exhaustive in BOTH tiers: named-tuple variants x set forms
     # random typed trees: mostly valid.  Candidates are drawn from the type-family-biased generator
     # and, when the model binary is available, selected so that about 3/4 of the stream is accepted
     # by the model (the real compiler is run on every selected case all the same).
@@ -267,6 +268,16 @@ def pair_cases(g: G.G, tier):
         for b in univ:
             for cmd in 'CDSKPI':
                 out.append(f'{cmd} {a} {b}')
+    # named tuples: same names / permuted / overlapping / unnamed / nested, opposite cast directions per
+    # field - all ordered pairs among themselves and against a few scalars / collections (both tiers)
+    nt = G.named_tuple_type_terms(g)
+    others = [S('std::int64'), S('std::float64'), 'anytuple', 'any', f'(arr {S("std::int64")})']
+    for a in nt:
+        for b in nt + others:
+            for cmd in 'CDSKPI':
+                out.append(f'{cmd} {a} {b}')
+                if b in others:
+                    out.append(f'{cmd} {b} {a}')
     return out
 
 
@@ -846,7 +857,9 @@ def run(tier):
                 f'all ordered pairs of {"the scalar+collection universe" if thorough else "the 14 core scalar types"}, '
                 'every prefix operator x the universe (scalars incl. user-defined / enum, arrays, ranges, multiranges, '
                 'tuples, named tuples, object types, {}, []), UNION / ?? / IF / set literal / array literal x pairs, '
-                '3-element sets over the numeric types, every function name with 1 and 2 arguments (polymorphic '
+                'named tuples (same names / permuted names / overlapping names / unnamed / nested in arrays and tuples, '
+                'int64 vs float64 swapped per field) x set literal, UNION, ??, IF, array literal, =, IN and function '
+                'arguments (exhaustive in both tiers), 3-element sets over the numeric types, every function name with 1 and 2 arguments (polymorphic '
                 'functions x the whole universe), tuple/array comparisons, indirections, casts, user-defined functions, '
                 'seeded random typed trees (depth <= 4, type-family biased), and a malformed stream; non-trivial = at '
                 'least 2 distinct leaf types or a collection constructor / call; distinct = distinct term. Plus '
